@@ -92,6 +92,56 @@ def _hx(b):
     return b.hex() if b else "-"
 
 
+OPTION_SPELLINGS = {
+    "--select": ["--select", "--choose", "-c"], "--choose": ["--select", "--choose", "-c"],
+    "--filter": ["--filter", "--where", "-f"], "--where": ["--filter", "--where", "-f"],
+    "--split-by": ["--split-by", "--break-by", "-b"], "--break-by": ["--split-by", "--break-by", "-b"],
+    "--group-by": ["--group-by", "-g"],
+    "--merge": ["--merge", "--combine", "--group-by", "-g"],
+    "--sort-by": ["--sort-by", "--order-by", "-s"], "--order-by": ["--sort-by", "--order-by", "-s"],
+    "--skip": ["--skip", "-k"], "--take": ["--take", "--limit", "-t"], "--limit": ["--take", "--limit", "-t"],
+    "--unique": ["--unique", "-u"], "--set": ["--set", "-e"],
+}
+RESPELL = os.environ.get("VERIF_RESPELL", "1") != "0"
+
+
+def respell(args):
+    """The same command line with every option name replaced by one of its documented spellings (--select = --choose = -c,
+    --merge = --combine = --group-by without a value, ...).  Deterministic in the argument list, so a replay sees the same
+    spelling.  The option *form* (--name=value / --name value) is kept; a short name is only used in the two-argument form."""
+    if not RESPELL:
+        return args
+    import zlib
+    flat = b"\x00".join(a if isinstance(a, bytes) else a.encode("utf-8", "surrogateescape") for a in args)
+    r = random.Random(zlib.crc32(flat))
+    if r.random() < 0.5:
+        return args
+    out = []
+    n = len(args)
+    for i, a in enumerate(args):
+        if isinstance(a, bytes) or not a.startswith("--"):
+            out.append(a)
+            continue
+        name, eq, val = a.partition("=")
+        alts = OPTION_SPELLINGS.get(name)
+        if not alts:
+            out.append(a)
+            continue
+        nxt = args[i + 1] if i + 1 < n else None
+        if name == "--merge":
+            # the valueless --group-by only where no value can be mistaken for its selection
+            ok_valueless = (nxt is None or (isinstance(nxt, str) and nxt.startswith("--")))
+            alts = alts if (not eq and ok_valueless) else ["--merge", "--combine"]
+        if eq:
+            alts = [x for x in alts if x.startswith("--")]
+        elif name in ("--unique", "--merge"):
+            pass
+        elif nxt is None or isinstance(nxt, bytes) or nxt.startswith("-"):
+            alts = [x for x in alts if x.startswith("--")]
+        out.append(r.choice(alts) + eq + val)
+    return out
+
+
 class Case:
     __slots__ = ("args", "stdin", "endless", "rsched", "rintr", "rfail", "wfail", "wshort", "wintr",
                  "efail", "flushfail", "files", "fifos", "efifos", "watchdog_ms", "use_dir")
@@ -118,7 +168,7 @@ class Case:
 
     def encode(self, cid, scratch):
         L = ["case %s" % cid]
-        for a in self.args:
+        for a in respell(self.args):
             if isinstance(a, str):
                 a = a.replace("@D@", scratch)
             else:
@@ -185,7 +235,7 @@ class Case:
             if isinstance(a, bytes):
                 a = a.decode("utf-8", "replace")
             return "'" + a.replace("'", "'\\''") + "'"
-        return "jawk " + " ".join(q(a) for a in self.args)
+        return "jawk " + " ".join(q(a) for a in respell(self.args))
 
 
 def enc(o):
